@@ -5,7 +5,7 @@ From Coq Require Import NArith ZArith List.
 From GV Require Import model.Cast model.Calendar model.TextConv.
 Extraction "extract/cast_model.ml"
   Cast.cast_int Cast.cast_float_int Cast.int_to_decimal Cast.decimal_to_decimal Cast.float_to_decimal
-  Cast.validate_precision Cast.rescale_spec Cast.int_spec Cast.float_int_spec Cast.rha_div Cast.decode
+  Cast.validate_precision Cast.rescale_spec Cast.int_spec Cast.float_int_spec Cast.float_decimal_spec Cast.rha_div Cast.decode
   Cast.int_to_float Cast.float_to_float Cast.encode Cast.F32 Cast.F64 Cast.D64 Cast.D128
   Calendar.days_from_civil Calendar.civil_from_days Calendar.valid_ymd Calendar.day_in_range
   TextConv.parse_int TextConv.format_int TextConv.parse_bool TextConv.format_bool
